@@ -182,6 +182,7 @@ gen_plan(const ProfileCfg &pc, uint64_t run_seed)
         const int api_mode = !pc.allow_burst ? 0 : (int) r.below(3); // 0 job, 1 burst, 2 alternate
         const double p_reinit = pc.allow_reinit ? 0.03 : 0.0;
         const double p_reattach = pc.allow_reattach ? 0.04 : 0.0;
+        const bool reattach_other_image = pc.allow_reattach && r.chance(0.5);
         GenOpts go;
         go.len_profile = (int) r.below(LEN_NPROF);
         go.max_len = (pc.big_lens && r.chance(0.15)) ? 65534 : pc.max_len;
@@ -219,7 +220,7 @@ gen_plan(const ProfileCfg &pc, uint64_t run_seed)
                         since_fault = 0;
                 } else if ((u -= p_reattach) < 0 && since_fault > 10) {
                         op.kind = OP_REATTACH;
-                        op.a = 0;
+                        op.a = reattach_other_image ? 1 : 0;
                         since_fault = 0;
                 } else if ((u -= p_misuse) < 0) {
                         op.kind = OP_MISUSE;
